@@ -237,6 +237,10 @@ structure State where
   file : List Char := []
   /-- ghost: the rows handed to `writer.writerow` that were written (what was archived) -/
   log : List (List (List Char)) := []
+  /-- archive files of the runs that were stopped, oldest first: (file text, ghost log) -/
+  finished : List (List Char × List (List (List Char))) := []
+  /-- text of the file `read_last_run_archive` opens after the last `on_stop` (`none`: that run has no file) -/
+  lastRun : Option (List Char) := none
 deriving Repr, DecidableEq
 
 inductive Op where
@@ -246,6 +250,8 @@ inductive Op where
   | sim (i : Nat) (v : Val)            -- `tags[i].simulate_value(v, t)`
   | stopSim (i : Nat)                  -- `tags[i].stop_simulation()`
   | mark (i : Nat) (text : List Char)  -- `MarkTag.set_value(text, t)`
+  | stop                               -- `on_stop`; the next start is a later second, i.e. another file name
+  | startLow                           -- `on_start` with < 5 MB free: the file name is set, no file is prepared
 deriving Repr, DecidableEq
 
 /-- Python `==` between two tag values as far as the harness produces them (`2 == 2.0`). -/
@@ -296,6 +302,13 @@ def stepOp (s : State) : Op → State
       if pyEq v t.simValue then { t with simulated := true } else { t with simulated := true, simValue := v }) }
   | .stopSim i => { s with tags := updTag s.tags i (fun t => { t with simulated := false, simValue := .none }) }
   | .mark i text => { s with tags := updTag s.tags i (fun t => markSet t text) }
+  | .stop =>
+    { s with fileReady := false, fileExists := false, file := [], log := [],
+             finished := s.finished ++ (if s.fileExists then [(s.file, s.log)] else []),
+             lastRun := if s.fileExists then some s.file else none }
+  -- `check_diskspace()` is false: `file_path` is assigned, `prepare_tags_file` is skipped, `file_ready` is left as
+  -- it is; rows are gated on `file_ready`, so nothing observable changes
+  | .startLow => s
 
 def run (s : State) (ops : List Op) : State := ops.foldl stepOp s
 
